@@ -1,7 +1,7 @@
 import BqVerif.Proofs.Sched
 import BqVerif.Proofs.Mailbox
 import BqVerif.Proofs.Worker
-import BqVerif.Model.FineWake
+import BqVerif.Proofs.FineWake
 import BqVerif.Proofs.StartOnceNet
 import BqVerif.Proofs.IntegrityNet
 import BqVerif.Proofs.RetOnceNet
@@ -11,6 +11,7 @@ import BqVerif.Proofs.SchedExact
 import BqVerif.Proofs.WakeNet
 import BqVerif.Proofs.WakeNet2
 import BqVerif.Proofs.WorkersInv
+import BqVerif.Proofs.MapArgs
 /-!
 # C07 — every awaited runtime future resolves exactly once with its own result
 
@@ -90,6 +91,35 @@ theorem C07_L_mailbox_refines (n : Nat) :
    fun _ _ h => ⟨h.ready_iff, h.value⟩⟩
 
 example : (((Box.new (some 2)).deposit 1 [7]).deposit 0 [5]).value = [1, 2, 5, 7] := by decide
+
+/-- **`map` over argument sequences of different lengths (L).**  `Worker.map(fn, *args)` zips its
+    argument sequences: with `n` the minimum of their lengths (`mapCount`), exactly the first `n`
+    child programs get a task (slots `0 … n-1`), the mailbox is created with `n` slots
+    (`Box.new (some n)` in `runBody`, `.map ps` with `ps.length = n`), and for any results `ds` of
+    pairwise distinct created tasks the mailbox is ready **exactly when all `n` created tasks have
+    returned** - never earlier, and (because no slot is left that nobody fills) always then.
+    Sizing the mailbox by `len(args[0])` instead would break the right-to-left direction whenever
+    the first sequence is not the shortest one. -/
+theorem C07_L_map_zip_slots (pids others : List Nat) :
+    let n := mapCount (pids.length :: others)
+    Instr.mapArgs pids others = .map (pids.take n)
+    ∧ (pids.take n).length = n
+    ∧ (∀ l ∈ pids.length :: others, n ≤ l) ∧ n ∈ pids.length :: others
+    ∧ ∀ (ds : List (Nat × Val)), (∀ d ∈ ds, d.1 < n) → (ds.map (·.1)).Nodup →
+        ((depositAll (Box.new (some n)) ds).ready = true ↔ (ds.length = n ∧ 0 < n)) := by
+  intro n
+  have hs := mapCount_spec pids.length others
+  refine ⟨rfl, ?_, hs.1, hs.2, fun ds h1 h2 => map_ready_iff n ds h1 h2⟩
+  have := hs.1 pids.length (by simp)
+  simp only [List.length_take]
+  omega
+
+/-- non-vacuity: `map(f, [p7, p8, p9, p7], [x, y])` creates two tasks in a two-slot mailbox, which
+    is ready after both results and not after one -/
+example :
+    mapCount [4, 2] = 2 ∧ Instr.mapArgs [7, 8, 9, 7] [2] = .map [7, 8]
+    ∧ (depositAll (Box.new (some 2)) [(1, [5]), (0, [6])]).ready = true
+    ∧ (depositAll (Box.new (some 2)) [(1, [5])]).ready = false := by decide
 
 /-- **Mailbox refinement (L), `next()` batches.** For any sequence of deposits and
     `get_new_results` calls on a mailbox, the batches handed out so far followed by what is
@@ -464,23 +494,9 @@ example :
 theorem C07_fine_lock_safe (sched : List Bool) :
     (FineWake.runL {} sched).main ≠ .failed ∧ (FineWake.runL {} sched).inc ≠ .crashed
     ∧ (FineWake.runL {} sched).maxReady ≤ 1 := by
-  have hclosed : ∀ l ∈ FineWake.reach,
-      FineWake.stepMain true l ∈ FineWake.reach ∧ FineWake.stepInc true l ∈ FineWake.reach := by
-    decide +kernel
   have hsafe : ∀ l ∈ FineWake.reach, l.main ≠ .failed ∧ l.inc ≠ .crashed ∧ l.maxReady ≤ 1 := by
     decide +kernel
-  have hinit : ({} : FineWake.FState) ∈ FineWake.reach := by decide +kernel
-  have hrun : ∀ (sc : List Bool) (l : FineWake.FState), l ∈ FineWake.reach →
-      FineWake.runL l sc ∈ FineWake.reach := by
-    intro sc
-    induction sc with
-    | nil => intro l hl; exact hl
-    | cons b t ih =>
-      intro l hl
-      cases b
-      · exact ih _ (hclosed l hl).2
-      · exact ih _ (hclosed l hl).1
-  exact hsafe _ (hrun sched _ hinit)
+  exact hsafe _ (FineWake.run_reach sched _ FineWake.reach_init)
 
 /-- **Line level: no lost wake-up, no deadlock on the lock.**  After *any* schedule prefix the two
     threads can still finish: some continuation delivers both results, wakes the task exactly when
@@ -492,34 +508,15 @@ theorem C07_fine_lock_complete (sched : List Bool) :
     ∧ (FineWake.stepMain true (FineWake.runL {} sched) = FineWake.runL {} sched →
        FineWake.stepInc true (FineWake.runL {} sched) = FineWake.runL {} sched →
        (FineWake.runL {} sched).main = .finished ∧ (FineWake.runL {} sched).inc = .done) := by
-  have hclosed : ∀ l ∈ FineWake.reach,
-      FineWake.stepMain true l ∈ FineWake.reach ∧ FineWake.stepInc true l ∈ FineWake.reach := by
-    decide +kernel
   have hcompl : ∀ l ∈ FineWake.reach,
       (FineWake.runL l FineWake.completion).main = .finished
       ∧ (FineWake.runL l FineWake.completion).inc = .done := by decide +kernel
   have hstuck : ∀ l ∈ FineWake.reach, FineWake.stepMain true l = l → FineWake.stepInc true l = l →
       l.main = .finished ∧ l.inc = .done := by decide +kernel
-  have hinit : ({} : FineWake.FState) ∈ FineWake.reach := by decide +kernel
-  have hrun : ∀ (sc : List Bool) (l : FineWake.FState), l ∈ FineWake.reach →
-      FineWake.runL l sc ∈ FineWake.reach := by
-    intro sc
-    induction sc with
-    | nil => intro l hl; exact hl
-    | cons b t ih =>
-      intro l hl
-      cases b
-      · exact ih _ (hclosed l hl).2
-      · exact ih _ (hclosed l hl).1
-  have happ : ∀ (a b : List Bool) (l : FineWake.FState),
-      FineWake.runL l (a ++ b) = FineWake.runL (FineWake.runL l a) b := by
-    intro a
-    induction a with
-    | nil => intro b l; rfl
-    | cons x t ih => intro b l; exact ih b _
-  refine ⟨⟨FineWake.completion, ?_⟩, hstuck _ (hrun sched _ hinit)⟩
-  rw [happ]
-  exact hcompl _ (hrun sched _ hinit)
+  have hr := FineWake.run_reach sched _ FineWake.reach_init
+  refine ⟨⟨FineWake.completion, ?_⟩, hstuck _ hr⟩
+  rw [FineWake.run_append]
+  exact hcompl _ hr
 
 /-- REGRESSION (pre-fix variant `run false`, NOT the code as it is): without the lock the schedule
     in which the incoming thread handles the result of `f0` right after the main thread executed
